@@ -204,8 +204,13 @@ pub fn compare_metadata(got: &FileRead, want: &FileRead) -> Option<(String, Stri
     if got.creation != want.creation {
         return Some(("meta-creation".into(), format!("creationDateTime {:?}, expected {:?}", got.creation, want.creation)));
     }
-    if got.extensions != want.extensions {
-        return Some(("meta-extensions".into(), format!("extensions {:?}, expected {:?}", got.extensions, want.extensions)));
+    {
+        let (mut a, mut b) = (got.extensions.clone(), want.extensions.clone());
+        a.sort();
+        b.sort();
+        if a != b {
+            return Some(("meta-extensions".into(), format!("extensions {:?}, expected {:?}", got.extensions, want.extensions)));
+        }
     }
     for (i, (g, w)) in got.pcs.iter().zip(want.pcs.iter()).enumerate() {
         if let Some(d) = diff_pc_meta(&g.meta, &w.meta) {
